@@ -210,7 +210,7 @@ func init() {
 	harnessAPI["vUF"] = func(e *Engine, st *State, a []Value, ci ssa.CallInstruction) Value {
 		name := e.cstr(st, a[0])
 		outLen := st.concreteSize(a[1].(BV).T, "vUF out length")
-		t := e.ufApply(st, name, outLen*8, a[2].(Slice))
+		t := e.ufApply(st, name, outLen*8, a[2].(Slice), true)
 		arr := ZeroArr()
 		for i := 0; i < outLen; i++ {
 			hi := (outLen-i)*8 - 1
@@ -222,8 +222,22 @@ func init() {
 	}
 	harnessAPI["vUFBool"] = func(e *Engine, st *State, a []Value, ci ssa.CallInstruction) Value {
 		name := e.cstr(st, a[0])
-		t := e.ufApply(st, name, 0, a[1].(Slice))
+		t := e.ufApply(st, name, 0, a[1].(Slice), false)
 		return Bool{t}
+	}
+	// vUFN: like vUF but without the injectivity axioms (ranges are still kept apart from other functions)
+	harnessAPI["vUFN"] = func(e *Engine, st *State, a []Value, ci ssa.CallInstruction) Value {
+		name := e.cstr(st, a[0])
+		outLen := st.concreteSize(a[1].(BV).T, "vUF out length")
+		t := e.ufApply(st, name, outLen*8, a[2].(Slice), false)
+		arr := ZeroArr()
+		for i := 0; i < outLen; i++ {
+			hi := (outLen-i)*8 - 1
+			arr = Store(arr, U64(uint64(i)), Extract(t, hi, hi-7))
+		}
+		ln := U64(uint64(outLen))
+		id := st.newBytes(arr, ln)
+		return Slice{Obj: id, Off: U64(0), Len: ln, Cap: ln}
 	}
 	harnessAPI["vStructField"] = func(e *Engine, st *State, a []Value, ci ssa.CallInstruction) Value {
 		ifc := a[0].(Iface)
@@ -234,6 +248,27 @@ func init() {
 		}
 		return Iface{T: stt.Field(i).Type(), V: ifc.V.(Struct).F[i]}
 	}
+	harnessAPI["vUseModels"] = func(e *Engine, st *State, a []Value, ci ssa.CallInstruction) Value {
+		if st.groups == nil {
+			st.groups = map[string]bool{}
+		}
+		st.groups[e.cstr(st, a[0])] = true
+		return nil
+	}
+	// ghost state attached to a heap object (any pointer into it), for model-side bookkeeping
+	harnessAPI["vGhostSet"] = func(e *Engine, st *State, a []Value, ci ssa.CallInstruction) Value {
+		p := asPtr(a[0])
+		st.ghost[fmt.Sprintf("ghost:%d:%s", p.Obj, e.cstr(st, a[1]))] = a[2]
+		return nil
+	}
+	harnessAPI["vGhostGet"] = func(e *Engine, st *State, a []Value, ci ssa.CallInstruction) Value {
+		p := asPtr(a[0])
+		v, ok := st.ghost[fmt.Sprintf("ghost:%d:%s", p.Obj, e.cstr(st, a[1]))]
+		if !ok {
+			return Slice{Obj: 0, Off: U64(0), Len: U64(0), Cap: U64(0)}
+		}
+		return v
+	}
 	harnessAPI["vExpectPanic"] = func(e *Engine, st *State, a []Value, ci ssa.CallInstruction) Value {
 		st.expectPanic = true
 		return nil
@@ -242,6 +277,17 @@ func init() {
 		return Bool{tTrue}
 	}
 	harnessAPI["vRegister"] = func(e *Engine, st *State, a []Value, ci ssa.CallInstruction) Value { return nil }
+}
+
+func asPtr(v Value) Ptr {
+	if i, ok := v.(Iface); ok {
+		v = i.V
+	}
+	p, ok := v.(Ptr)
+	if !ok {
+		panic(abortSignal{fmt.Sprintf("ghost state on non-pointer %T", v)})
+	}
+	return p
 }
 
 var tier = "quick"
@@ -315,7 +361,7 @@ func implementsError(t types.Type) bool {
 // outBits == 0 gives a predicate. Injectivity: an inverse function per (name, length signature)
 // is axiomatised for each application; different length signatures use different symbols whose
 // ranges are kept apart by a tag function.
-func (e *Engine) ufApply(st *State, name string, outBits int, parts Slice) *Term {
+func (e *Engine) ufApply(st *State, name string, outBits int, parts Slice, injective bool) *Term {
 	np := st.concreteSize(parts.Len, "vUF parts")
 	var po *Obj
 	poff := 0
@@ -362,16 +408,20 @@ func (e *Engine) ufApply(st *State, name string, outBits int, parts Slice) *Term
 		t = UF("uf_"+sig, SBV(outBits), args...)
 	}
 	// injectivity: inverse per argument, and a tag that separates length signatures
-	for i, a := range args {
-		inv := UF(fmt.Sprintf("ufinv%d_%s", i, sig), a.S, t)
-		st.addPC(Eq(inv, a))
+	if injective {
+		for i, a := range args {
+			inv := UF(fmt.Sprintf("ufinv%d_%s", i, sig), a.S, t)
+			st.addPC(Eq(inv, a))
+		}
 	}
+	// ranges of different function symbols (and of different input-length signatures of one
+	// function) with the same output width are disjoint: ideal, unrelated functions
 	tagID, ok := ufTags[sig]
 	if !ok {
 		tagID = len(ufTags) + 1
 		ufTags[sig] = tagID
 	}
-	st.addPC(Eq(UF(fmt.Sprintf("uftag_%s_%d", name, outBits), SBV(16), t), BVC(16, uint64(tagID))))
+	st.addPC(Eq(UF(fmt.Sprintf("uftag_%d", outBits), SBV(16), t), BVC(16, uint64(tagID))))
 	return t
 }
 
